@@ -453,6 +453,45 @@ def respondOK (tx : TxRecord) : Bool :=
     | .ok _ => true
     | .error _ => false
 
+/-! ## what the proposal controller does with an accepted change (validate phase)
+
+`reconcileValidate` renders the target's live values — the stored ones and the change's — with
+`tree.BuildTree`; `addPathToTree` (pkg/utils/v2/tree/tree.go) takes every element but the last
+that contains `=` apart with unchecked slice expressions. -/
+
+/-- the `for strings.Contains(keyString, "=")` loop of `addPathToTree`: `false` = a slice
+    expression is out of bounds.  Every round drops at least two characters. -/
+def treeKeyLoop : Nat → Str → Bool
+  | 0, _ => true
+  | fuel + 1, ks =>
+    if !ks.contains '=' then true
+    else
+      let lo := match indexOf '[' 0 ks with      -- keyString[brktIdx+1 : eqIdx]
+        | some i => i + 1
+        | none => 0
+      match indexOf '=' 0 ks with
+      | none => true
+      | some e =>
+        if lo > e then false
+        else
+          match indexOf ']' 0 ks with            -- keyString[eqIdx+1 : brktIdx2]
+          | none => false
+          | some j => if e + 1 > j then false else treeKeyLoop fuel (ks.drop (j + 1))
+
+/-- one element of a path in `addPathToTree`: `pathelems[0][:brktIdx]` needs a `[` -/
+def treeElemOK (elem : Str) : Bool :=
+  if !elem.contains '=' then true
+  else
+    match indexOf '[' 0 elem with
+    | none => false
+    | some b => treeKeyLoop elem.length (elem.drop b)
+
+def treePathOK (path : Str) : Bool := (splitPath path).dropLast.all treeElemOK
+
+/-- can the validate phase render the live values of the change? -/
+def downstreamOK (tx : TxRecord) : Bool :=
+  tx.changes.all fun tc => tc.2.all fun e => e.2.deleted || treePathOK e.1
+
 /-! ## server state: the transaction log and which configurations exist -/
 
 inductive LogEntry
@@ -496,6 +535,7 @@ def touchedBy (tx : TxRecord) (cs : List (Str × CfgState)) : List (Str × CfgSt
 
 inductive SetOutcome
   | accepted (tx : TxRecord) (respOK : Bool)
+  | downstreamPanic (tx : TxRecord)       -- logged; the proposal controller panics on it
   | failed (f : Fail)
 deriving Repr
 
@@ -503,7 +543,7 @@ deriving Repr
 def handleSet (abs : Abs) (st : NBState) (req : SetReq) : SetOutcome × NBState :=
   match setPre abs st.env req with
   | .error f => (.failed f, st)
-  | .ok tx => (.accepted tx (respondOK tx),
+  | .ok tx => ((if downstreamOK tx then .accepted tx (respondOK tx) else .downstreamPanic tx),
       { st with log := st.log ++ [.change tx], configs := touchedBy tx st.configs })
 
 /-! ## Get -/
